@@ -387,12 +387,12 @@ macro_rules! impl_nio_read {
                 if !$crate::syscall::is_socket($fd) {
                     return self.inner.$syscall(fn_ptr, $fd, $($arg, )*);
                 }
-                let blocking = $crate::syscall::is_blocking($fd);
+                let blocking = $crate::syscall::caller_is_blocking($fd);
                 if !blocking {
                     // the caller asked for non-blocking semantics: never wait on its behalf
                     return self.inner.$syscall(fn_ptr, $fd, $($arg, )*);
                 }
-                $crate::syscall::set_non_blocking($fd);
+                $crate::syscall::nio_enter($fd);
                 let start_time = $crate::common::now();
                 let mut left_time = $crate::syscall::recv_time_limit($fd);
                 let mut r = -1;
@@ -421,7 +421,7 @@ macro_rules! impl_nio_read {
                     }
                 }
                 if blocking {
-                    $crate::syscall::set_blocking($fd);
+                    $crate::syscall::nio_leave($fd);
                 }
                 r
             }
@@ -464,13 +464,13 @@ macro_rules! impl_nio_read_buf {
                 if !$crate::syscall::is_socket($fd) {
                     return self.inner.$syscall(fn_ptr, $fd, $buf, $len, $($($arg, )*)?);
                 }
-                let blocking = $crate::syscall::is_blocking($fd);
+                let blocking = $crate::syscall::caller_is_blocking($fd);
                 if !blocking || 0 == $len {
                     // the caller asked for non-blocking semantics (never wait on its behalf),
                     // or for nothing at all (a zero-length request returns what the kernel says)
                     return self.inner.$syscall(fn_ptr, $fd, $buf, $len, $($($arg, )*)?);
                 }
-                $crate::syscall::set_non_blocking($fd);
+                $crate::syscall::nio_enter($fd);
                 let start_time = $crate::common::now();
                 let mut left_time = $crate::syscall::recv_time_limit($fd);
                 let mut received = 0;
@@ -510,7 +510,7 @@ macro_rules! impl_nio_read_buf {
                     }
                 }
                 if blocking {
-                    $crate::syscall::set_blocking($fd);
+                    $crate::syscall::nio_leave($fd);
                 }
                 if received > 0 {
                     // report what was really transferred, -1 only if nothing was
@@ -562,13 +562,13 @@ macro_rules! impl_nio_read_iovec {
                     std::slice::from_raw_parts($iov, $iovcnt.try_into().expect("overflow"))
                 };
                 let total: usize = vec.iter().map(|v| v.iov_len).sum();
-                let blocking = $crate::syscall::is_blocking($fd);
+                let blocking = $crate::syscall::caller_is_blocking($fd);
                 if !blocking || 0 == total {
                     // the caller asked for non-blocking semantics (never wait on its behalf),
                     // or for nothing at all (a zero-length request returns what the kernel says)
                     return self.inner.$syscall(fn_ptr, $fd, $iov, $iovcnt, $($arg, )*);
                 }
-                $crate::syscall::set_non_blocking($fd);
+                $crate::syscall::nio_enter($fd);
                 let start_time = $crate::common::now();
                 let mut left_time = $crate::syscall::recv_time_limit($fd);
                 let mut done = 0usize;
@@ -612,7 +612,7 @@ macro_rules! impl_nio_read_iovec {
                         break;
                     }
                 }
-                $crate::syscall::set_blocking($fd);
+                $crate::syscall::nio_leave($fd);
                 if done > 0 {
                     // report what was really transferred, -1 only if nothing was
                     $crate::syscall::reset_errno();
@@ -659,13 +659,13 @@ macro_rules! impl_nio_write_buf {
                 if !$crate::syscall::is_socket($fd) {
                     return self.inner.$syscall(fn_ptr, $fd, $buf, $len, $($($arg, )*)?);
                 }
-                let blocking = $crate::syscall::is_blocking($fd);
+                let blocking = $crate::syscall::caller_is_blocking($fd);
                 if !blocking || 0 == $len {
                     // the caller asked for non-blocking semantics (never wait on its behalf),
                     // or for nothing at all (a zero-length request returns what the kernel says)
                     return self.inner.$syscall(fn_ptr, $fd, $buf, $len, $($($arg, )*)?);
                 }
-                $crate::syscall::set_non_blocking($fd);
+                $crate::syscall::nio_enter($fd);
                 let start_time = $crate::common::now();
                 let mut left_time = $crate::syscall::send_time_limit($fd);
                 let mut sent = 0;
@@ -705,7 +705,7 @@ macro_rules! impl_nio_write_buf {
                     }
                 }
                 if blocking {
-                    $crate::syscall::set_blocking($fd);
+                    $crate::syscall::nio_leave($fd);
                 }
                 if sent > 0 {
                     // report what was really transferred, -1 only if nothing was
@@ -757,13 +757,13 @@ macro_rules! impl_nio_write_iovec {
                     std::slice::from_raw_parts($iov, $iovcnt.try_into().expect("overflow"))
                 };
                 let total: usize = vec.iter().map(|v| v.iov_len).sum();
-                let blocking = $crate::syscall::is_blocking($fd);
+                let blocking = $crate::syscall::caller_is_blocking($fd);
                 if !blocking || 0 == total {
                     // the caller asked for non-blocking semantics (never wait on its behalf),
                     // or for nothing at all (a zero-length request returns what the kernel says)
                     return self.inner.$syscall(fn_ptr, $fd, $iov, $iovcnt, $($arg, )*);
                 }
-                $crate::syscall::set_non_blocking($fd);
+                $crate::syscall::nio_enter($fd);
                 let start_time = $crate::common::now();
                 let mut left_time = $crate::syscall::send_time_limit($fd);
                 let mut done = 0usize;
@@ -806,7 +806,7 @@ macro_rules! impl_nio_write_iovec {
                         break;
                     }
                 }
-                $crate::syscall::set_blocking($fd);
+                $crate::syscall::nio_leave($fd);
                 if done > 0 {
                     // report what was really transferred, -1 only if nothing was
                     $crate::syscall::reset_errno();
@@ -983,6 +983,39 @@ pub extern "C" fn is_non_blocking(fd: c_int) -> bool {
     (flags & libc::O_NONBLOCK) != 0
 }
 
+/// Descriptors a hooked call has switched to non-blocking on behalf of a blocking caller, with
+/// the number of such calls in flight: several coroutines can be inside hooked calls on the same
+/// socket at once (a reader and a writer, several acceptors).
+static NIO_IN_FLIGHT: Lazy<DashMap<c_int, usize>> = Lazy::new(Default::default);
+
+/// Whether the caller uses `fd` in blocking mode: what the flag says, unless a hooked call that
+/// is still in flight has set `O_NONBLOCK` on behalf of a blocking caller.
+#[must_use]
+pub fn caller_is_blocking(fd: c_int) -> bool {
+    NIO_IN_FLIGHT.contains_key(&fd) || is_blocking(fd)
+}
+
+/// A hooked call on a blocking descriptor starts: the descriptor is non-blocking until the last
+/// such call has left.
+pub fn nio_enter(fd: c_int) {
+    let mut in_flight = NIO_IN_FLIGHT.entry(fd).or_insert(0);
+    if 0 == *in_flight {
+        set_non_blocking(fd);
+    }
+    *in_flight += 1;
+}
+
+/// The counterpart of [`nio_enter`]: the last call out gives the caller its blocking mode back.
+pub fn nio_leave(fd: c_int) {
+    if let dashmap::mapref::entry::Entry::Occupied(mut in_flight) = NIO_IN_FLIGHT.entry(fd) {
+        *in_flight.get_mut() -= 1;
+        if 0 == *in_flight.get() {
+            _ = in_flight.remove();
+            set_blocking(fd);
+        }
+    }
+}
+
 /// Check if the file descriptor refers to a socket.
 /// Non-socket fds (regular files, pipes, etc.) don't support epoll-based
 /// event notification and should bypass the NIO (non-blocking I/O + event loop) path.
@@ -1076,10 +1109,12 @@ pub fn remaining_iovecs(vec: &[libc::iovec], done: usize) -> Vec<libc::iovec> {
     left
 }
 
-/// Forget the cached `SO_SNDTIMEO`/`SO_RCVTIMEO` values of a descriptor that is being closed.
+/// Forget what is remembered per descriptor number (cached `SO_SNDTIMEO`/`SO_RCVTIMEO` values,
+/// hooked calls in flight) when the descriptor is being closed.
 pub(crate) fn forget_time_limits(fd: c_int) {
     _ = SEND_TIME_LIMIT.remove(&fd);
     _ = RECV_TIME_LIMIT.remove(&fd);
+    _ = NIO_IN_FLIGHT.remove(&fd);
 }
 
 pub(crate) fn get_time_limit(tv: &libc::timeval) -> u64 {
